@@ -1153,8 +1153,12 @@ def run(ctx):
     ctx.require_count("C10.i-enumerated-values-agree", 7)
     rule_j_guards_agree(ctx, ifns, hfns)
     ctx.require_count("C10.j-writer-reader-guards-agree", 2)
-    rule_k_full_precision(ctx, ifns)
-    ctx.require_count("C10.k-quantities-written-with-full-precision", 5)
+    image_keys = dict(FULL_PRECISION_KEYS)
+    # the position of every voxel: size and first pixel offset are floats and have to come back as written (F75)
+    image_keys["scaling factor (mm/pixel)"] = "voxel size: with 6 digits the position of the last voxel of a long axis moves by micrometres to millimetres"
+    image_keys["first pixel offset (mm)"] = "position of the first voxel (index offset and origin)"
+    rule_k_full_precision(ctx, ifns, keys=image_keys)
+    ctx.require_count("C10.k-quantities-written-with-full-precision", 11)
     ctx.require_count("C10.a-header-keys-agree", 25)
     ctx.require_count("C10.b-short-file-is-error", 2)
     ctx.require_count("C10.c-number-types-exhaustive", 3)
